@@ -67,6 +67,18 @@ func simpleDoc(r *sim.Rand) pdfw.DocSpec {
 	if r.Pct(20) {
 		sp.TextOps = 1
 	}
+	if r.Pct(35) {
+		// several fonts that differ only in their encoding, written inline and mapped to the
+		// same resource names differently on every page: per-page results then only compose
+		// if nothing about fonts is carried from page to page
+		sp.FontKinds = []int{pdfw.FontStdWinAnsi, pdfw.FontStdMacRoman}
+		if r.Bool() {
+			sp.FontKinds = append(sp.FontKinds, pdfw.FontSimpleToUni)
+		}
+		sp.FontsInline = r.Bool()
+		sp.PageResVary = true
+		sp.TreeDepth = 1
+	}
 	return sp
 }
 
